@@ -523,6 +523,6 @@ R.contract(
     },
     modifies=["self.random.*", "all:dict[Problem,Fitness]", "all:dict[~Str,int]", "all:field:phenotype", "self.tracker.best_individual", "self.tracker.hist[]", "class:SearchRecorder",
               "self.tracker.evaluator.count", "self.tracker.problem.ff.fn.ncalls", "self.problem.ff.fn.ncalls"],
-    props=["C15", "C12"],
+    props=["C15", "C12", "C10"],
     note="partial correctness only: termination of GP depends on the step producing unevaluated individuals (DESIGN.md 3/C14)",
 )
